@@ -1,3 +1,5 @@
+mod c12;
+mod c17;
 mod c22;
 mod c23;
 mod c24;
@@ -14,6 +16,8 @@ fn main() {
     install_panic_hook();
     let ctx = Ctx::new(args.clone());
     let code = match args.property.as_str() {
+        "C12" => c12::run(&ctx),
+        "C17" => c17::run(&ctx),
         "C22" => c22::run(&ctx),
         "C23" => {
             if args.extra.iter().any(|a| a == "--nest-child") {
